@@ -2,7 +2,8 @@
 # tools/eval_all_seeds.sh : regression over every kept seeded change: confirm it again and run the check(s) named in meta.json
 here="$(dirname "$(dirname "$(readlink -f "$0")")")"
 one() { d="$1"; here="$2"; name=$(basename "$d"); for p in $(python3 -c "import json;print(' '.join(json.load(open('$d/meta.json'))['checked_by']))"); do
-  r=$(timeout 1500 "$here/tools/eval_seed.sh" "$d" "$p" 2>&1 | grep -a -E "^demo clean|^RESULT" | tr '\n' ' '); echo "$name $p $r"; done; }
+  o=$(timeout 1500 "$here/tools/eval_seed.sh" "$d" "$p" 2>&1); r=$(echo "$o" | grep -a -E "^demo clean|^RESULT" | tr '\n' ' ')
+  c=$(echo "$o" | grep -a -oE "mechanism=[^ ]+ count=[0-9]+" | sed 's/.*count=//' | sort -n | tail -1); echo "$name $p $r maxcount=${c:-0}"; done; }
 export -f one
 ls -d "$here"/seeded/*/ | xargs -P ${JOBS:-6} -I{} bash -c 'one "{}" "'"$here"'"' | sort > "$here/seeded/RESULTS.txt"
 echo "detected: $(grep -c 'RESULT detected' "$here/seeded/RESULTS.txt") of $(wc -l < "$here/seeded/RESULTS.txt")"; grep -v "RESULT detected" "$here/seeded/RESULTS.txt"
